@@ -127,8 +127,30 @@ pub fn build_dup(s: &AfSpec, seed: u64) -> AAFramework<usize> {
 /// using the small framework while the code works on components of 40-80 arguments (table sizes, bit sets, thresholds).
 pub fn build_padded(s: &AfSpec, seed: u64) -> AAFramework<usize> {
     let mut rng = StdRng::seed_from_u64(seed ^ 0x9ad);
-    let k = rng.gen_range(35..=70);
-    let labels: Vec<usize> = (1..=s.n + k).collect();
+    // placement of the core among the sinks: 0 = core first (ids 0..n-1) then 35-70 sinks; 1 / 2 = the core arguments are spread with a
+    // stride of 64 / 32 ids (core ids congruent modulo the stride: bit-set words, hash signatures, table blocks), sinks in between
+    let mode = if s.n == 0 { 0 } else { seed % 3 };
+    let (labels, k): (Vec<usize>, usize) = if mode == 0 {
+        let k = rng.gen_range(35..=70);
+        ((1..=s.n + k).collect(), k)
+    } else {
+        let stride = if mode == 1 { 64 } else { 32 };
+        let c = rng.gen_range(0..stride);
+        let total = c + stride * (s.n - 1) + 1 + rng.gen_range(0..stride);
+        let k = total - s.n;
+        let mut labels = vec![0usize; total];
+        for i in 1..=s.n {
+            labels[c + stride * (i - 1)] = i;
+        }
+        let mut next = s.n + 1;
+        for l in labels.iter_mut() {
+            if *l == 0 {
+                *l = next;
+                next += 1;
+            }
+        }
+        (labels, k)
+    };
     let mut af = AAFramework::new_with_argument_set(ArgumentSet::new_with_labels(&labels));
     let mut atts = s.att.clone();
     if s.n > 0 {
